@@ -163,6 +163,49 @@ func (w *World) feeFor(t *Tx, ops []*BuiltOp) sdk.Coins {
 	return coinsFrom(m)
 }
 
+// expandOps: an enterprise decision with Rule 2 ("batch approval") stands for one decision message per order that is
+// still raised and that the signer has not decided yet (at most 40), all in this transaction.
+func (w *World) expandOps(in []Op) []Op {
+	out := make([]Op, 0, len(in))
+	for _, op := range in {
+		if op.Kind != EntDecide || op.Rule != 2 {
+			out = append(out, op)
+			continue
+		}
+		probe := op
+		probe.Rule = 0
+		signer := w.buildOp(&probe).Named.Key()
+		n := 0
+		for _, o := range w.Ent.Orders {
+			if o.Status != StRaised || n >= 40 {
+				continue
+			}
+			decided := false
+			for _, d := range o.Decisions {
+				if d.Signer == signer {
+					decided = true
+				}
+			}
+			if decided {
+				continue
+			}
+			e := op
+			e.Rule, e.Lit = 3, o.ID
+			out = append(out, e)
+			n++
+		}
+		if n == 0 {
+			out = append(out, probe)
+		} else {
+			w.Class("op.batch-decision")
+			if n > 25 {
+				w.Class("op.batch-decision-over-25-orders")
+			}
+		}
+	}
+	return out
+}
+
 // BuildTx resolves, wraps, prices and signs a transaction against the current state.
 func (w *World) BuildTx(t *Tx, forCheck bool) *BuiltTx {
 	bt := &BuiltTx{Tx: t, Snap: map[string]interface{}{}}
@@ -174,8 +217,9 @@ func (w *World) BuildTx(t *Tx, forCheck bool) *BuiltTx {
 	why := ""
 	wrapped := t.Wrap == WrapExec || t.Wrap == WrapExec2
 	granteeIdx := t.Grantee
-	for i := range t.Ops {
-		bo := w.buildOp(&t.Ops[i])
+	ops := w.expandOps(t.Ops)
+	for i := range ops {
+		bo := w.buildOp(&ops[i])
 		bt.Ops = append(bt.Ops, bo)
 		if wrapped && granteeIdx < 0 {
 			// grantee -1: an account holding a grant from the named party, if there is one
@@ -227,7 +271,7 @@ func (w *World) BuildTx(t *Tx, forCheck bool) *BuiltTx {
 	// multi-op transactions: a later op may depend on an earlier one of the same
 	// tx; the per-op predictions were made against the pre-state, so a
 	// must-accept is only kept for single-op transactions.
-	if len(t.Ops) > 1 && verdict == MustAccept {
+	if len(ops) > 1 && verdict == MustAccept {
 		verdict = Either
 	}
 	switch t.Wrap {
@@ -431,6 +475,13 @@ func (w *World) RunTx(t *Tx) *BuiltTx {
 					}
 				}
 			}
+		}
+	}
+	if bt.Delivered && len(bt.Ops) > 25 && bt.Ops[0].Op.Kind == EntDecide && bt.Ops[0].Op.Rule == 3 {
+		if bt.OK {
+			w.Class(fmt.Sprintf("tx.batch-decision-over-25.ok.accept=%v", bt.Ops[0].Op.Flag))
+		} else {
+			w.Class(fmt.Sprintf("tx.batch-decision-over-25.failed.%s/%d", bt.Res.Codespace, bt.Res.Code))
 		}
 	}
 	if checkOnly || (bt.Delivered && !bt.OK) {
